@@ -2,9 +2,9 @@
 from __future__ import annotations
 from engine.registry import Registry
 from engine import sortmodel, polymodel
-from contracts import option, sorting, align, compare, order_lemmas, leading, dispatch, construct, dispatchfn, baseclass, derivative, division, statics, call, codec
+from contracts import option, sorting, align, compare, order_lemmas, leading, dispatch, construct, dispatchfn, baseclass, derivative, division, statics, call, codec, shapefn, display
 
-_CONTRACT_MODULES = [option, sorting, align, compare, leading, dispatch, construct, dispatchfn, baseclass, derivative, division, call, codec]
+_CONTRACT_MODULES = [option, sorting, align, compare, leading, dispatch, construct, dispatchfn, baseclass, derivative, division, call, codec, shapefn]
 
 ALL_CONTRACTS = {}
 for _m in _CONTRACT_MODULES:
@@ -21,6 +21,7 @@ def build_registry():
     from engine import codecmodel
     codecmodel.install(reg)
     codec.install_axioms(reg)
+    shapefn.install_axioms(reg)
     for c in ALL_CONTRACTS.values():
         def model(ex, args, kw, node, _c=c):
             ex.reg.used.add("contract:" + _c.name)
@@ -184,14 +185,28 @@ PROPS = {
                 assumptions=["B7 (coefficient-level definition of the formal partial derivative)", "A1"],
                 not_decided=["gradient / hessian (bounded only)", "negative positions (bounded only)",
                              "ring-level laws of pdiff (linearity, product rule, symmetry): facts of MvPolynomial.pderiv, not re-proved"]),
-    "C09": dict(level="other", contracts=["numpoly.ndpoly.__getitem__", "numpoly.ndpoly.__array_finalize__"],
-                explanation="ndpoly.__getitem__ (basic and advanced indexing, every index expression) is proved to rebuild the result "
-                "from the polynomial's own rows and names with EVERY coefficient column indexed by the same index, so whole polynomial "
-                "elements move; dtype kept, result fresh. The shape-function wrappers, joins, where/choose/full and iteration are "
-                "bounded run-time contracts (conc/checks_c09.py) with numpy on an object array of model polynomials as oracle.",
-                trusted_base=COMMON_TRUSTED + ["numpy indexing is dtype-agnostic (index map depends on shape and index only)"],
-                assumptions=["B6 (column-wise indexing moves whole elements)"],
-                not_decided=["shape-function wrappers, joins, iteration: bounded only"]),
+    "C09": dict(level="other", contracts=["numpoly.ndpoly.__getitem__", "numpoly.ndpoly.__array_finalize__"] + [
+                    f"numpoly.{f}" for f in ("reshape", "transpose", "repeat", "tile", "expand_dims", "diag", "diagonal", "atleast_1d",
+                                             "atleast_2d", "atleast_3d", "split", "array_split", "hsplit", "vsplit", "dsplit",
+                                             "concatenate", "stack", "hstack", "vstack", "dstack", "moveaxis")],
+                explanation="ndpoly.__getitem__ (any index expression) rebuilds the result from the polynomial's own rows and names "
+                "with EVERY coefficient column indexed by the same index. The 15 raw movers (reshape, transpose, repeat, tile, "
+                "expand_dims, atleast_1/2/3d, diag, diagonal, split family) are proved to hand the whole raw storage of their operand "
+                "to the numpy function of the same name, forward every user parameter to the numpy parameter of the same name using "
+                "only keywords/positions the INSTALLED numpy accepts (signature read from the installed numpy each run), and "
+                "rebuild with the operand's names. The 5 column-wise joins are proved to align exponents, apply the numpy namesake "
+                "to the t-th columns of all operands in order for every term t with the axis forwarded, and build from the aligned "
+                "rows/names. moveaxis goes through simple_dispatch (every column, parameters forwarded). That numpy's movers/joins "
+                "are dtype-agnostic and that moving all columns with one index map moves whole polynomial elements is bridge B6 "
+                "(trusted). where/choose/full/full_like/broadcast_arrays, iteration, ravel/flatten/.T and the numpy-level element "
+                "placement: bounded run-time contracts (conc/checks_c09.py, numpy on an object array of model polynomials).",
+                trusted_base=COMMON_TRUSTED + ["numpy movers/joins/indexing are dtype-agnostic (index map depends on shapes and arguments only)",
+                                               "assumed input-kind contract: polynomial/aspolynomial of a raw structured array plus names "
+                                               "(decoding of field names: codec proved under C20)",
+                                               "inspect.signature of the installed numpy (asked from /venv/bin/python each run)"],
+                assumptions=["B6 (column-wise / record-wise moves with one index map move whole polynomial elements)"],
+                not_decided=["where, choose, full, full_like, broadcast_arrays, iteration (bounded only)",
+                             "which element numpy places where (numpy semantics: bounded conformance)"]),
     "C10": dict(level="other", contracts=["numpoly.simple_dispatch", "numpoly.sum", "numpoly.cumsum", "numpoly.mean"],
                 explanation="sum/cumsum/mean are proved to apply numpy.sum/cumsum/mean to every coefficient column of the operand with "
                 "axis/dtype/keepdims forwarded unchanged (contract of simple_dispatch: every column written, rows/names kept); that a "
@@ -243,8 +258,16 @@ PROPS = {
                 trusted_base=COMMON_TRUSTED + ["pickle/copy protocol of CPython and numpy's array pickling", "contract of polynomial_from_attributes (proved under C03)"],
                 assumptions=["B1 (abstract value depends only on the sparse coefficient map)"],
                 not_decided=["savetxt/loadtxt round trip (bounded only)", ".copy() itself is numpy's ndarray.copy (trusted) + __array_finalize__ (proved)"]),
-    "C16": dict(level="other", contracts=[], explanation="Bounded run-time contracts only so far (conc/checks_c16.py): independent "
-                "parser of the printed text.", trusted_base=COMMON_TRUSTED),
+    "C16": dict(level="other", contracts=["numpoly.glexsort"], statics=[display.static_obligations],
+                explanation="Order clause: static obligations (AST of array_repr.py, every run) establish that _to_string visits the "
+                "terms in the order numpoly.glexsort returns for the exponent rows with graded/reverse taken from the display_graded/"
+                "display_reverse options of the current option map, reversed exactly when display_inverse is set, one chunk appended "
+                "per visited term and the chunks joined in list order; glexsort's contract (a permutation sorting in (graded)(reverse) "
+                "lexicographic order) is re-posed here. Denotation clause (the text reads back as the polynomial under every display "
+                "option, coefficient type and shape; to_sympy round trip): depends on str(number), numpy.array2string and a parser - "
+                "no contract within the solver's reach expresses it; bounded run-time contract check with an independent parser "
+                "(conc/checks_c16.py).", trusted_base=COMMON_TRUSTED,
+                not_decided=["denotation clause of str/repr and to_sympy (bounded only)", "sign/elision logic of the chunks (bounded only)"]),
     "C03": dict(
         level="other",
         contracts=["numpoly.remove_redundant_coefficients", "numpoly.remove_redundant_names", "numpoly.postprocess_attributes",
